@@ -165,6 +165,10 @@ int __wrap_deflate(z_streamp strm, int flush)
             hyp_fail("deflate-stopped-early");
         if (rc == Z_OK && consumed == 0 && produced == 0)
             hyp_fail("deflate-ok-without-progress");
+        if (rc != Z_OK && rc != Z_BUF_ERROR)
+            hyp_fail("deflate-error");
+        if (rc == Z_BUF_ERROR && (consumed != 0 || produced != 0 || (ain > 0 && aout > 0)))
+            hyp_fail("deflate-buf-error-although-progress-possible");
     }
     return rc;
 }
@@ -191,6 +195,8 @@ int __wrap_inflate(z_streamp strm, int flush)
         hyp_fail("inflate-counts");
     if (rc == Z_OK && consumed == 0 && produced == 0)
         hyp_fail("inflate-ok-without-progress");
+    if (rc == Z_BUF_ERROR && (consumed != 0 || produced != 0))
+        hyp_fail("inflate-buf-error-with-progress");
     return rc;
 }
 
